@@ -366,7 +366,7 @@ def run(pid, tier):
     n = 420 if tier == "quick" else 5000
     docs = []
     hist = {"raises_library_exception": 0, "with_ref": 0, "with_not_if_oneOf": 0, "in_c06_scope": 0, "recursive": 0,
-            "random_documents": 0, "conjunctions_of_one_keyword_group": 0, "recursion_through_not_or_if": 0, "diverges": 0}
+            "random_documents": 0, "conjunctions_of_one_keyword_group": 0, "recursion_through_not_or_if": 0, "self_conjunction": 0, "diverges": 0}
     while len(docs) < n:
         m = rng.random()
         if m < 0.50:
@@ -375,9 +375,12 @@ def run(pid, tier):
         elif m < 0.95:
             d = J.gen_merge_doc(rng)
             hist["conjunctions_of_one_keyword_group"] += 1
-        elif hist["recursion_through_not_or_if"] < 60:
+        elif hist["recursion_through_not_or_if"] < 60 and rng.random() < 0.6:
             d = J.gen_negated_recursion(rng)
             hist["recursion_through_not_or_if"] += 1
+        elif hist["self_conjunction"] < 40:
+            d = J.gen_self_conjunction(rng)
+            hist["self_conjunction"] += 1
         else:
             d = J.gen_merge_doc(rng)
             hist["conjunctions_of_one_keyword_group"] += 1
